@@ -2,7 +2,7 @@
    Only statements, each closed by `exact <lemma>`, with Print Assumptions beneath. *)
 From Coq Require Import List NArith ZArith Bool.
 From Common Require Import Lock.
-From Conc Require Import Lin LockedObject.
+From Conc Require Import Lin Cert LockedObject.
 From C35 Require Import Model Gen Checker Proofs ProofsT ProofsCap ProofsPtr ProofsConc ProofsTop.
 Import ListNotations.
 Local Open Scope N_scope.
@@ -24,10 +24,7 @@ Proof. reflexivity. Qed.
    recently used entry. *)
 Theorem C35_seq_refines : forall (c : N) (ops : list op),
   p_run (p_new c) ops = r_run (r_new c) ops /\ m_run (m_new c) ops = r_run (r_new c) ops.
-Proof.
-  intros c ops. split; [apply p_run_r_run|].
-  rewrite <- abs_new. apply m_run_refines. apply minv_new.
-Qed.
+Proof. exact seq_refines. Qed.
 Print Assumptions C35_seq_refines.
 
 (* ---- "capacity-bounded map": after any sequence of operations the cache holds at most its
@@ -63,7 +60,7 @@ Proof. vm_compute. split; reflexivity. Qed.
    specifications return the same results. *)
 Theorem C35_lru_by_time : forall (c : N) (ops : list op),
   forallb getput ops = true -> r_run (r_new c) ops = t_run (t_new c) ops.
-Proof. intros c ops. apply r_run_t_run. apply RT_new. Qed.
+Proof. exact lru_by_time. Qed.
 Print Assumptions C35_lru_by_time.
 
 (* ---- concurrency: with the lock modes read from the source, every complete interleaved
@@ -84,13 +81,20 @@ Print Assumptions C35_linearizable.
    sound (memoized search), the plain search decides linearizability *)
 Theorem C35_lin_check_sound : forall bud c h,
   lru_lin bud c h = Some true -> linearizable (fspec rspec op res r_step) (r_new c) h.
-Proof. intros bud c h. apply lin_check_m_true. exact res_eqb_spec. Qed.
+Proof. exact lru_lin_sound. Qed.
 Print Assumptions C35_lin_check_sound.
 
 Theorem C35_lin_check_complete : forall bud c h,
   lru_lin_complete bud c h = Some false -> ~ linearizable (fspec rspec op res r_step) (r_new c) h.
-Proof. intros bud c h. apply lin_check_b_false. exact res_eqb_spec. Qed.
+Proof. exact lru_lin_complete_false. Qed.
 Print Assumptions C35_lin_check_complete.
+
+(* a linearization found by the driver's own (untrusted) search is accepted only through the
+   certificate check: positions of the records in linearization order *)
+Theorem C35_lin_cert_sound : forall c h p,
+  lru_cert c h p = true -> linearizable (fspec rspec op res r_step) (r_new c) h.
+Proof. exact lru_cert_sound. Qed.
+Print Assumptions C35_lin_cert_sound.
 
 (* ---- the pinned source before the fix: Get ran under the read lock.  Two concurrent Gets
    complete and leave a list from which an element is missing (3 elements, 2 reachable). *)
@@ -99,9 +103,7 @@ Theorem C35_concurrent_get_refuted :
     reach pst loc op res p_init p_fin p_mstep (mode_of prefix_locks) (init_cfg pst loc op res s321 two_gets) cf /\
     length (done pst loc op res cf) = 2%nat /\
     p_wf (shared pst loc op res cf) = false.
-Proof.
-  exists bad_final. destruct concurrent_get_corrupts as [A [B [_ [D _]]]]. exact (conj A (conj B D)).
-Qed.
+Proof. exact concurrent_get_refuted. Qed.
 Print Assumptions C35_concurrent_get_refuted.
 
 (* non-vacuity: an eviction of the least recently used key after a refreshing get *)
